@@ -100,10 +100,23 @@ func tagOf(m *pool.Message) string {
 	return strings.TrimRight(string(b), ".") // block-wise notifications carry the tag padded with dots to two blocks
 }
 
-func (w *world) inject(tok uint64, code codes.Code, seq string, tag string) {
+// shortTok: the token value without its leading zero bytes - a DIFFERENT token (RFC 7252: tokens are opaque byte strings,
+// length included), which no registration of the harness uses
+func shortTok(t uint64) message.Token {
+	b := tokBytes(t)
+	for len(b) > 1 && b[0] == 0 {
+		b = b[1:]
+	}
+	return b
+}
+
+func (w *world) inject(tok uint64, code codes.Code, seq string, tag string, alias ...bool) {
 	m := pool.NewMessage(context.Background())
 	m.SetCode(code)
 	m.SetToken(tokBytes(tok))
+	if len(alias) > 0 && alias[0] {
+		m.SetToken(shortTok(tok))
+	}
 	if seq != "-" {
 		v, _ := strconv.ParseUint(seq, 10, 32)
 		m.SetObserve(uint32(v))
@@ -121,7 +134,7 @@ func (w *world) inject(tok uint64, code codes.Code, seq string, tag string) {
 		m.SetType(message.NonConfirmable)
 		// the answer to a confirmable registration request that is still unacknowledged is piggybacked on its ACK
 		w.scanSent()
-		if id, ok := w.conMID[tok]; ok {
+		if id, ok := w.conMID[tok]; ok && !(len(alias) > 0 && alias[0]) {
 			delete(w.conMID, tok)
 			m.SetType(message.Acknowledgement)
 			m.SetMessageID(id)
@@ -375,6 +388,15 @@ func runCase(t *testing.T, transport string, ops [][]string) []string {
 						}
 						w.mu.Unlock()
 					}()
+				case "arrivez":
+					// the same bytes without the leading zeros: another token, nobody's
+					tok, _ := strconv.ParseUint(f[1], 10, 64)
+					code, _ := strconv.ParseUint(f[2], 10, 16)
+					at, _ := strconv.ParseInt(f[4], 10, 64)
+					if d := time.Duration(at) - time.Since(w.start); d > 0 {
+						time.Sleep(d)
+					}
+					w.inject(tok, codes.Code(code), f[3], f[5], true)
 				case "arrive":
 					tok, _ := strconv.ParseUint(f[1], 10, 64)
 					code, _ := strconv.ParseUint(f[2], 10, 16)
@@ -486,7 +508,7 @@ func TestC08(t *testing.T) {
 		case len(f) == 1 && f[0] == "end":
 			flush(w)
 			fmt.Fprintln(w, "end")
-		case transport != "" && (f[0] == "reg" && (len(f) == 2 || len(f) == 3) || f[0] == "arrive" && len(f) == 6 || (f[0] == "regabort" || f[0] == "cancel") && len(f) == 3):
+		case transport != "" && (f[0] == "reg" && (len(f) == 2 || len(f) == 3) || (f[0] == "arrive" || f[0] == "arrivez") && len(f) == 6 || (f[0] == "regabort" || f[0] == "cancel") && len(f) == 3):
 			ops = append(ops, f)
 		default:
 			flush(w)
